@@ -117,7 +117,6 @@ structure St (K : Codec) where
   toChild : List CEv := []              -- events handled by the child, in order
   routed : List CEv := []               -- events passed to event_to_child, in order
   up : List Up := []                    -- commands emitted, in order
-  inbound : Bytes := []                 -- all bytes received on the tunnel connection
   accepted : Bytes := []                -- child payloads that sendall accepted
   rxError : Bool := false               -- recv raised SSL.Error at some point
 
@@ -288,7 +287,6 @@ def handle (env : Env K) (child : Child) (s : St K) : Ev → St K
     let s := if connOpen then startHandshake env child { s with st := .establishing } else s
     eventToChild child s .start
   | .data d =>
-    let s := { s with inbound := s.inbound ++ d }
     if s.st = .establishing then hsData env child s d else receiveData child s d
   | .closeEv =>
     let s :=
